@@ -946,9 +946,13 @@ impl JitCompiler {
                             // updated later, but not created after compiling (we need the address of the
                             // helper function in the JIT-compiled program).
                             if let Some(helper) = helpers.get(&(insn.imm as u32)) {
+                                // R10 holds the packet pointer for LD_ABS/LD_IND, but it is
+                                // caller-saved in the System V ABI: preserve it across the call.
+                                self.emit_push(mem, R10);
                                 // We reserve RCX for shifts
                                 self.emit_mov(mem, R9, RCX);
                                 self.emit_call(mem, *helper as usize);
+                                self.emit_pop(mem, R10);
                             } else {
                                 Err(Error::other(
                                     format!(
